@@ -195,6 +195,9 @@ def tree_cases(tier):
         "kind": st.sampled_from(["multi_leaf", "musig"]),
         # other tree builders called on the SAME TapRootMultiSig object first (results discarded)
         "warmup": st.lists(st.sampled_from(WARMUPS), min_size=0, max_size=3),
+        # signature-hash type of each signer of a k-of-n leaf (all default in two cases out of three)
+        "tap_hts": st.one_of(st.just([0]), st.just([0]),
+                             st.lists(st.sampled_from([0, 1, 2, 3, 0x81, 0x82, 0x83]), min_size=5, max_size=5)),
         "nonces": st.lists(st.tuples(gen.secrets(), gen.secrets()), min_size=kn[0], max_size=kn[0]),
         "amount": st.integers(1000, 2**40), "version": st.sampled_from([1, 2]),
     }))
@@ -261,7 +264,10 @@ def check_trees(case, ctx):
         ts = MultiSigTapScript([p.point for p in chosen], k)
         require(ts.commands == leaf.tap_script.commands, "trees/leaf_script_mismatch")
         tx.initialize_p2tr_multisig(0, cb, ts)
-        sigs = [tx.get_sig_taproot(0, p, ext_flag=1) for p in chosen]
+        hts = list(case.get("tap_hts", []))[: len(chosen)] or [0]
+        if len(set(hts)) >= 2:
+            ctx.label("cosigners_use_different_sighash_types")
+        sigs = [tx.get_sig_taproot(0, p, ext_flag=1, hash_type=hts[i % len(hts)]) for i, p in enumerate(chosen)]
         ok = tx.finalize_p2tr_multisig(0, sigs)
         require(ok is True, "trees/subset_spend_rejected_by_finalize")
     else:
@@ -291,5 +297,5 @@ SUBS = [
         required=["fault:" + f for f in ("omit", "alter", "alter_small", "swap_nonce_share", "double")]),
     Sub("trees_cover_subsets", check_trees, strategy=tree_cases, budget={"quick": 250, "thorough": 5000},
         required=[f"multi_leaf:k={k},n={n}" for k, n in KN] + [f"musig:k={k},n={n}" for k, n in KN if k >= 2]
-        + ["warmup:" + w for w in WARMUPS]),
+        + ["warmup:" + w for w in WARMUPS] + ["cosigners_use_different_sighash_types"]),
 ]
